@@ -1759,6 +1759,30 @@ impl<'u> Tr<'u> {
                     Expr::Call(c) => c.args.iter().collect(),
                     _ => vec![],
                 };
+                if let Some(idx) = self.effect_args.clone() {
+                    let hs: Vec<Option<Ty>> = match ety.as_ref() {
+                        Some(Ty::Tuple(ts)) if ts.len() == idx.len() => ts.iter().cloned().map(Some).collect(),
+                        _ => vec![None; idx.len()],
+                    };
+                    let mut gs = Vec::new();
+                    let mut ts = Vec::new();
+                    for (i, h) in idx.iter().zip(hs.iter()) {
+                        let a = match args.get(*i) {
+                            Some(a) => *a,
+                            None => return self.err(e.span(), format!("`{callee}` is called with {} arguments (argument {i} is needed)", args.len())),
+                        };
+                        if contains_call_named(a, callee) {
+                            return self.err(e.span(), format!("nested calls of `{callee}`"));
+                        }
+                        let (g, t) = self.expr(a, env, h.as_ref())?;
+                        gs.push(g.render(0));
+                        ts.push(t);
+                    }
+                    if ety.is_none() {
+                        *ety = Some(Ty::Tuple(ts));
+                    }
+                    return Ok(raw(format!("(cons ({}) nil)", gs.join(", "))));
+                }
                 let arg = match self.effect_arg {
                     None => {
                         if args.len() != 1 {
@@ -1808,6 +1832,44 @@ impl<'u> Tr<'u> {
                 *ety = ety2;
                 Ok(r.0)
             }
+            // `callee!(..).map_err(f)?`: an adapter on the value of the recorded call
+            Expr::MethodCall(m) if !m.args.iter().any(|a| contains_call_named(a, callee)) => {
+                self.effects_expr(&m.receiver, env, callee, ety)
+            }
+            // `for pat in xs { .. callee(v) .. }`: the values of every turn, in order (fifth round)
+            Expr::ForLoop(fl) if fl.label.is_none() => {
+                struct Exits(bool);
+                impl<'ast> Visit<'ast> for Exits {
+                    fn visit_expr_break(&mut self, _: &'ast syn::ExprBreak) {
+                        self.0 = true;
+                    }
+                    fn visit_expr_continue(&mut self, _: &'ast syn::ExprContinue) {
+                        self.0 = true;
+                    }
+                    fn visit_expr_return(&mut self, _: &'ast syn::ExprReturn) {
+                        self.0 = true;
+                    }
+                    fn visit_expr_closure(&mut self, _: &'ast syn::ExprClosure) {}
+                    fn visit_item(&mut self, _: &'ast Item) {}
+                }
+                let mut ex = Exits(false);
+                ex.visit_block(&fl.body);
+                if ex.0 {
+                    return self.err(fl.span(), format!("`{callee}` is called in a loop with `break` / `continue` / `return`"));
+                }
+                let (it, itt) = self.expr(&fl.expr, env, None)?;
+                let elem = match itt {
+                    Ty::List(t) => *t,
+                    t => return self.err(fl.span(), format!("`for` over a value of type {}", t.coq())),
+                };
+                let mut env2 = env.clone();
+                let binder = match &*fl.pat {
+                    Pat::Tuple(_) => format!("'{}", self.pattern(&fl.pat, &elem, &mut env2)?),
+                    p => self.pattern(p, &elem, &mut env2)?,
+                };
+                let body = self.effects_block(&fl.body.stmts, &env2, callee, ety)?;
+                Ok(app("List.flat_map", vec![raw(format!("(fun {binder} => {})", body.render(6))), it]))
+            }
             _ => self.err(e.span(), format!("`{callee}` is called in a position the effect list does not follow (loop, closure, argument)")),
         }
     }
@@ -1839,8 +1901,20 @@ impl<'u> Tr<'u> {
             }
             None => None,
         };
+        // `of: {"args": [i, j]}`: the recorded value is the tuple of these arguments (fifth round)
+        self.effect_args = rq.of.as_ref().and_then(|o| o.get("args")).and_then(|v| v.as_array()).map(|a| {
+            a.iter().filter_map(|v| v.as_u64()).map(|v| v as usize).collect::<Vec<_>>()
+        });
+        let saved_opaque = std::mem::take(&mut self.opaque);
+        self.in_progress.push(format!("fn {}", rq.item));
         let g = self.effects_block(&stmts, &env, &callee, &mut ety);
+        self.in_progress.pop();
         self.effect_arg = None;
+        self.effect_args = None;
+        if g.is_ok() {
+            self.opaque_binders(&mut binders);
+        }
+        self.opaque = saved_opaque;
         let g = g?;
         let ety = match ety {
             Some(t) => t,
@@ -1892,14 +1966,21 @@ impl<'u> Tr<'u> {
         let mut env = Env {
             self_ty: self_ty.clone(),
             ret: Some(hint.clone()),
-            events_enum: Some(rq.events.clone().unwrap_or_default()),
+            // (without `events`: the plain value of the closure)
+            events_enum: rq.events.clone(),
             ..Env::default()
         };
         let mut binders = Vec::new();
         self.declare_params(rq, self_ty.as_deref(), &mut env, &mut binders)?;
         self.cur_file = self.u.files[file].clone();
         let (g, t) = self.block(&stmts, &env, &K::Value(Some(hint.clone())))?;
-        let t = if t == Ty::Never { Ty::Tuple(vec![Ty::List(Box::new(Ty::Str)), hint.clone()]) } else { t };
+        let t = if t != Ty::Never {
+            t
+        } else if rq.events.is_some() {
+            Ty::Tuple(vec![Ty::List(Box::new(Ty::Str)), hint.clone()])
+        } else {
+            hint.clone()
+        };
         let text = format!("Definition {name} {} : {} :=\n  {}.", binders.join(" "), t.coq(), g.render(2));
         let mut hashed = proc_macro2::TokenStream::new();
         for s in &stmts {
